@@ -220,7 +220,8 @@ Select(pgn, bytes) ==
 FieldInRange(f, bytes) ==
   CASE f.kind \in {"num", "time", "date"} ->
           Positioned(f) /\ (Sentinel(f, Code(f, bytes)) \/ InDbRange(f, Code(f, bytes)))
-    [] f.kind = "float" -> Positioned(f) /\ f.zeroOk /\ AllZero(Code(f, bytes))
+    \* a float is certainly fine when it is zero (and zero is in range) or carries the not-available pattern (all ones)
+    [] f.kind = "float" -> Positioned(f) /\ ((f.zeroOk /\ AllZero(Code(f, bytes))) \/ AllOnes(Code(f, bytes)))
     [] OTHER -> TRUE
 
 AllInRange(d, bytes) ==
